@@ -9,9 +9,9 @@ IMPORTS = ("From Alator Require Import Model.Num Model.Quirks Model.Cost Model.E
            "Check.Eqb Check.ExchCheck Check.ServerCheck Check.BrokerCheck.")
 
 BASPECTS = {0: "kind", 1: "event", 2: "cash", 3: "holdings", 4: "pending", 5: "quotes", 6: "log", 7: "failed",
-            8: "calls", 9: "delivered", 10: "orders", 11: "getters"}
-B_KIND, B_EVENT, B_CASH, B_HOLDINGS, B_PENDING, B_QUOTES, B_LOG, B_FAILED, B_CALLS, B_DELIVERED, B_ORDERS, B_GETTERS = \
-    [1 << i for i in range(12)]
+            8: "calls", 9: "delivered", 10: "orders", 11: "getters", 12: "state_invariant"}
+B_KIND, B_EVENT, B_CASH, B_HOLDINGS, B_PENDING, B_QUOTES, B_LOG, B_FAILED, B_CALLS, B_DELIVERED, B_ORDERS, B_GETTERS, \
+    B_STATE = [1 << i for i in range(13)]
 BROKER_FLAGS = ["q_send_dropped_future", "q_limit_panics", "q_liq_ceil_precedence", "q_diff_break",
                 "q_diff_direction_flip", "q_liq_fail_debit"]
 SYMS = ["ABC", "BCD", "XYZ"]
@@ -768,12 +768,14 @@ BORACLES = dict(C13=oracle_c13_broker, C04=oracle_c04, C05=oracle_c05, C06=oracl
 BPROJ = {
     # property: (ops considered or None, aspect mask)
     "C04": (None, B_KIND | B_EVENT | B_CASH | B_FAILED),
-    "C05": (None, B_KIND | B_HOLDINGS | B_PENDING | B_LOG | B_GETTERS),
-    "C06": (("send",), B_KIND | B_EVENT | B_CALLS | B_DELIVERED | B_CASH | B_HOLDINGS | B_PENDING),
-    "C09": (None, B_KIND | B_FAILED | B_EVENT | B_CALLS | B_CASH | B_HOLDINGS),
-    "C10": (("liq", "check"), B_KIND | B_EVENT | B_CALLS | B_PENDING),
-    "C11": (("getters", "check", "trade_costs"), B_KIND | B_GETTERS | B_QUOTES),
-    "C12": (("diff",), B_KIND | B_ORDERS),
+    # B_STATE: the observed states must satisfy the model's reachable-state invariant (no zero position stored, keys
+    # unique) wherever the property's theorems speak of "a held symbol" / "a long portfolio" / "the positions"
+    "C05": (None, B_KIND | B_HOLDINGS | B_PENDING | B_LOG | B_GETTERS | B_STATE),
+    "C06": (("send",), B_KIND | B_EVENT | B_CALLS | B_DELIVERED | B_CASH | B_HOLDINGS | B_PENDING | B_STATE),
+    "C09": (None, B_KIND | B_FAILED | B_EVENT | B_CALLS | B_CASH | B_HOLDINGS | B_STATE),
+    "C10": (("liq", "check"), B_KIND | B_EVENT | B_CALLS | B_PENDING | B_STATE),
+    "C11": (("getters", "check", "trade_costs"), B_KIND | B_GETTERS | B_QUOTES | B_STATE),
+    "C12": (("diff",), B_KIND | B_ORDERS | B_STATE),
     # C13 as the broker uses the cost model (the configured list must be the one applied)
     "C13": (("diff", "trade_costs"), B_KIND | B_ORDERS | B_GETTERS),
 }
